@@ -308,6 +308,121 @@ def run(chk):
     chk.touched(ds)
     r6.require(3, "dispatch obligations")
 
+    # ------------------------------------------------------------------ R6.7 exact matches first
+    r7 = chk.rule("R6.7", "dispatch ranks candidates by the number of parameters whose bare type differs from the argument's and tries rank 0 (exact matches) first, then 1, 2, ...; an exact candidate is entered without a conversion filter",
+                  "when an overload matches the argument types exactly it is the one chosen")
+    dfs = [f for f in ds if strip_targs(f["q"]) == "chaiscript::dispatch::dispatch"]
+    seen7 = set()
+    for f in dfs:
+        flow = FnFlow(f)
+        # the rank: a local counter incremented exactly under `!param_type.bare_equal(arg_type)`
+        incs = [n for n in walk(f["body"]) if n.get("k") == "unop" and n.get("op") == "++" and strip_casts(n["e"]).get("k") == "ref" and strip_casts(n["e"]).get("rk") == "local"]
+        rank_ok = False
+        rank_var = None
+        for n in incs:
+            facts = [(strip_casts(c), t) for c, t in flow.facts(n)]
+            for c, t in facts:
+                if c.get("k") == "unop" and c.get("op") == "!" and t:
+                    inner = strip_casts(c["e"])
+                    if inner.get("k") == "call" and inner.get("name") == "bare_equal" and "get_param_types" in expr_str(prog, f, inner) and "get_type_info" in expr_str(prog, f, inner):
+                        rank_ok = True
+                        rank_var = strip_casts(n["e"]).get("vid")
+        stored = any(n.get("k") == "call" and n.get("name") == "emplace_back" and n.get("args") and strip_casts(n["args"][0]).get("vid") == rank_var for n in walk(f["body"])) if rank_var else False
+        # the attempt loop: i from 0 upward, attempt only candidates whose rank == i
+        loops = [n for n in walk(f["body"]) if n.get("k") == "for" and any(x.get("k") == "call" and x.get("op") == "()" for x in walk(n.get("body") or {}))]
+        order_ok = False
+        gate_ok = False
+        exact_unfiltered = False
+        for lp in loops:
+            init = lp.get("init") or {}
+            iv = init.get("vars", [{}])[0] if init.get("k") == "decl" else {}
+            start = strip_casts(iv.get("init") or {})
+            inc = strip_casts(lp.get("inc") or {})
+            if start.get("k") == "lit" and start.get("v") == 0 and inc.get("k") == "unop" and inc.get("op") == "++" and strip_casts(inc["e"]).get("vid") == iv.get("vid"):
+                order_ok = True
+                for n in walk(lp["body"]):
+                    if n.get("k") == "call" and n.get("op") == "()" and n.get("fn") is not None:
+                        for c, t in flow.facts(n):
+                            for a in conjuncts(c):
+                                a = strip_casts(a)
+                                if t and a.get("k") == "binop" and a.get("op") == "==" and {strip_casts(a["lhs"]).get("vid"), strip_casts(a["rhs"]).get("vid")} & {iv.get("vid")} and \
+                                        any(strip_casts(x).get("k") == "member" and strip_casts(x).get("name") == "first" for x in (a["lhs"], a["rhs"])):
+                                    gate_ok = True
+                                if t and a.get("k") == "binop" and a.get("op") == "||":
+                                    l = strip_casts(a["lhs"])
+                                    if l.get("k") == "binop" and l.get("op") == "==" and strip_casts(l["rhs"]).get("v") == 0 and strip_casts(l["lhs"]).get("vid") == iv.get("vid"):
+                                        exact_unfiltered = True
+        key = (rank_ok, stored, order_ok, gate_ok)
+        if key in seen7:
+            continue
+        seen7.add(key)
+        r7.ob("dispatch: a candidate's rank counts the parameters whose bare type differs from the argument's", rank_ok and stored, f.where, f["q"],
+              "rank counter under `!param.bare_equal(arg)`: %s; stored with the candidate: %s" % (rank_ok, stored))
+        r7.ob("dispatch: ranks are tried in ascending order starting with 0, a candidate only at its own rank", order_ok and gate_ok, f.where, f["q"],
+              "ascending loop from 0: %s; call guarded by rank == i: %s" % (order_ok, gate_ok))
+        r7.ob("dispatch: an exact candidate (rank 0) is not subject to the conversion filter", exact_unfiltered, f.where, f["q"], "no `i == 0 || filter(...)` guard")
+    r7.require(3, "obligations")
+
+    # ------------------------------------------------------------------ R6.8 who may reinterpret the raw data pointer
+    r8 = chk.rule("R6.8", "the untyped data pointer of a Boxed_Value (get_ptr / get_const_ptr) is cast to a typed pointer only in the verified cast kernel, in the arithmetic kernel, or under a dominating test that the box holds exactly that type",
+                  "a value is handed to C++ only as its actual type or through a real conversion (a base-class conversion adjusts the pointer, it does not reinterpret it)")
+    groups8 = {}
+    for f in prog.fns:
+        if f["tk"] == "pattern" or not f["file"].startswith("include/"):
+            continue
+        flow = None
+        for n in walk(f["body"]):
+            if n.get("k") != "cast" or n.get("ck") not in ("static", "reinterpret", "cstyle", "functional"):
+                continue
+            t = prog.T(f, n.get("t"))
+            if not t.rstrip().endswith("*"):
+                continue
+            src = [x for x in walk(n.get("e") or {}) if x.get("k") == "call" and x.get("name") in ("get_ptr", "get_const_ptr") and x.get("obj") is not None]
+            if not src:
+                continue
+            q = strip_targs(f["q"])
+            where = "%s:%d" % (f["file"], n["l"])
+            if q == "chaiscript::detail::Cast_Helper_Inner::cast":
+                verdict, why = True, "cast kernel (typeid verified, R6.3)"
+            elif q.startswith("chaiscript::Boxed_Number::"):
+                verdict, why = True, "arithmetic kernel (type selected by the Common_Types switch, C05 R5.6)"
+            else:
+                flow = flow or FnFlow(f)
+                target = norm_ws(pointee_of(t))
+                verdict, why = False, "no dominating test that the box holds %s" % pointee_of(t)
+                for a, tr in atomic_facts(flow, n):
+                    a = strip_casts(a)
+                    if not tr or a.get("k") != "call" or a.get("name") not in ("bare_equal", "bare_equal_type_info") or not a.get("args"):
+                        continue
+                    o = strip_casts(a.get("obj") or {})
+                    if not (o.get("k") == "call" and o.get("name") == "get_type_info" and o.get("obj") is not None and same_var(o["obj"], src[0]["obj"])):
+                        continue
+                    arg = strip_casts(a["args"][0])
+                    tested = None
+                    if arg.get("k") == "typeid" and arg.get("of") is not None:
+                        tested = prog.T(f, arg["of"])
+                    elif arg.get("k") == "call" and arg.get("name") == "user_type":
+                        d = prog.fn_by_id(f, arg.get("fn")) or prog.decl(f, arg.get("fn")) or {}
+                        m = re.search(r"user_type<(.*)>$", d.get("q", ""))
+                        tested = m.group(1) if m else None
+                    if tested is not None and norm_ws(re.sub(r"^const\s+", "", tested)) == target:
+                        verdict, why = True, "under a test that the box holds %s" % tested
+                    elif tested is not None:
+                        why = "the dominating test is for %s, the pointer is cast to %s" % (tested, pointee_of(t))
+            e = groups8.setdefault((q, verdict), {"n": 0, "where": where, "f": f, "why": why})
+            e["n"] += 1
+    for (q, verdict), e in sorted(groups8.items(), key=lambda kv: str(kv[0])):
+        r8.ob("%s: raw data pointer reinterpreted as a typed pointer (%d sites/instantiations) - %s" % (q, e["n"], "checked" if verdict else "UNCHECKED"), verdict, e["where"], e["f"]["q"],
+              "%s: the bytes of one type are read as another (a derived-to-base conversion of a non-primary base needs a pointer adjustment)" % e["why"])
+    r8.require(3, "reinterpretation sites")
+
+
+def conjuncts(c):
+    c = strip_casts(c)
+    if isinstance(c, dict) and c.get("k") == "binop" and c.get("op") == "&&":
+        return conjuncts(c["lhs"]) + conjuncts(c["rhs"])
+    return [c]
+
 
 def unpack(pack):
     """a printed parameter pack '<A, B>' -> ['A', 'B']"""
